@@ -38,7 +38,7 @@ func luFamily(c *inst, raw json.RawMessage, full bool, sum *core.Summary) {
 			sum.Count("calls_on_blocked_sizes", 1)
 		}
 	}
-	checkFactor := func(routine string, a []float64, lda int, ipiv []int, ok bool) {
+	checkFactor := func(k *chk, routine string, a []float64, lda int, ipiv []int, ok bool) {
 		if ok != c.Ok {
 			k.fail(routine, "ok", "ok = %v, specification says %v (zero pivot planted at column %d)", ok, c.Ok, c.Kz)
 		}
@@ -75,7 +75,7 @@ func luFamily(c *inst, raw json.RawMessage, full bool, sum *core.Summary) {
 			})
 			count()
 			if ran {
-				checkFactor(routine, a, lda, ipiv, ok)
+				checkFactor(k, routine, a, lda, ipiv, ok)
 			}
 		}
 	}
@@ -85,10 +85,14 @@ func luFamily(c *inst, raw json.RawMessage, full bool, sum *core.Summary) {
 	// ---- solves with the specification's factors ------------------------------------
 	nrhss := []int{c.R, 1}
 	if full {
-		nrhss = []int{c.R, 1, 2, 0}
+		nrhss = []int{c.R, 1, 2}
+	}
+	nrhsSolve := nrhss
+	if full {
+		nrhsSolve = []int{c.R, 1, 2, 0}
 	}
 	for _, lda := range ldas(n, full) {
-		for _, nrhs := range nrhss {
+		for _, nrhs := range nrhsSolve {
 			if nrhs > c.R {
 				continue
 			}
@@ -135,8 +139,8 @@ func luFamily(c *inst, raw json.RawMessage, full bool, sum *core.Summary) {
 	}
 	// ---- Dgesv: factor and solve in one call -----------------------------------------
 	for _, lda := range ldas(n, false) {
-		for _, nrhs := range nrhss {
-			if nrhs > c.R {
+		for _, nrhs := range append(append([]int(nil), nrhss...), 0) {
+			if nrhs > c.R || nrhs == 0 && full && lda != maxi(1, n) {
 				continue
 			}
 			ldb := maxi(1, nrhs) + lda - maxi(1, n)
@@ -150,7 +154,18 @@ func luFamily(c *inst, raw json.RawMessage, full bool, sum *core.Summary) {
 			if !ran {
 				continue
 			}
-			checkFactor("Dgesv", a, lda, ipiv, ok)
+			if nrhs == 0 {
+				// "On return, the factors L and U are stored in a ... pivot indices are stored in
+				// ipiv" holds for every nrhs (reference DGESV factors A also when nrhs = 0); kept
+				// under one signature of its own.
+				k2 := &chk{sum: &core.Summary{}, c: raw, where: k.where, den: c.Den, tol: k.tol}
+				checkFactor(k2, "Dgesv", a, lda, ipiv, ok)
+				if k2.bad {
+					k.fail("Dgesv", "nrhs0-not-factored", "with nrhs = 0 the documented factorization is not returned: %s", k2.sum.Failures[0].Msg)
+				}
+				continue
+			}
+			checkFactor(k, "Dgesv", a, lda, ipiv, ok)
 			k.cmpMat("Dgesv", "X", b, ldb, c.X, 1, n, nrhs, nil)
 			k.cmpPad("Dgesv", "b", b, ldb, n, nrhs)
 		}
